@@ -1,6 +1,7 @@
 package main
 
 import (
+	"context"
 	"fmt"
 	"runtime"
 	"strconv"
@@ -13,6 +14,7 @@ import (
 
 	"github.com/iotaledger/hive.go/runtime/event"
 	"github.com/iotaledger/hive.go/runtime/promise"
+	"github.com/iotaledger/hive.go/runtime/valuenotifier"
 	"github.com/iotaledger/hive.go/runtime/workerpool"
 )
 
@@ -31,6 +33,8 @@ import (
 //	     R LinkTo calls of one goroutine (targets A, B, nil) while G x K triggers of A and B run; logical clock stamps
 //	lm <M> <rounds> => <bad>
 //	     per round M simultaneous LinkTo(A|B) callers, then Trigger(A), Trigger(B): the linked event fires once in total
+//	uu <mode> <U> <rounds> => <bad> <lost> <extra>     (see execUU)
+//	vd <values> <K> => <waits> <ok> <other>            (see execVD)
 //	hw <G> <K> <H> => <T> <unordered> <f1,s2,uf,us,c> ...
 //	     G x K Trigger calls, H goroutines hooking (and partly unhooking) meanwhile; per hook the logical-clock window
 
@@ -731,6 +735,12 @@ func genStress(rng *hx.Rng, scale int) [][]string {
 		cases = append(cases, []string{fmt.Sprintf("hc %d %d %d", 2+rng.Intn(7), hx.Pick(rng, []int{1, 2, 5, 30}), hx.Pick(rng, []int{50, 200, 500}))})
 	}
 	for i := 0; i < 6*scale; i++ {
+		cases = append(cases, []string{fmt.Sprintf("uu %d %d %d", i%2, 2+rng.Intn(3), hx.Pick(rng, []int{2000, 4000}))})
+	}
+	for i := 0; i < 4*scale; i++ {
+		cases = append(cases, []string{fmt.Sprintf("vd %d %d", 1+rng.Intn(3), hx.Pick(rng, []int{5000, 20000}))})
+	}
+	for i := 0; i < 6*scale; i++ {
 		cases = append(cases, []string{fmt.Sprintf("lm %d %d", 2+rng.Intn(7), hx.Pick(rng, []int{100, 300, 600}))})
 	}
 	for i := 0; i < 8*scale; i++ {
@@ -804,4 +814,175 @@ func genMN(rng *hx.Rng) []string {
 	}
 
 	return ops
+}
+
+// execUU: the last-attached hook is removed by several goroutines at once while another goroutine attaches new
+// hooks; afterwards a quiescent Trigger must reach every hook that is attached and was not unhooked, exactly once.
+//
+//	uu <mode> <U> <rounds> => <bad> <lost> <extra>
+//	     mode 0: U goroutines call Unhook of the last-attached hook; mode 1: that hook has WithMaxTriggerCount(1)
+//	     and has fired once, U goroutines call Trigger (each finds it exhausted and unhooks it); meanwhile one
+//	     goroutine attaches 1-2 new hooks.  bad = rounds in which the quiescent Trigger missed an attached hook
+//	     (lost), invoked one twice or invoked the removed one (extra).
+func (w *world) execUU(f []string) (string, string) {
+	in := cutArrow(f)
+	p, ok := atoiAll(in)
+	if !ok || len(p) != 3 || p[0] > 1 || p[1] < 2 || p[1] > 8 || p[2] < 1 || p[2] > 1000000 {
+		return "uu " + strings.Join(f, " "), "bad-op"
+	}
+	mode, u, rounds := p[0], p[1], p[2]
+	bad, lost, extra := 0, 0, 0
+	first := ""
+	for round := 0; round < rounds; round++ {
+		e := event.New1[int]()
+		const quiet = 1 << 20 // argument of the quiescent Trigger
+		var c1, c2 atomic.Int64
+		newCounts := make([]atomic.Int64, 2)
+		count := func(c *atomic.Int64) func(int) {
+			return func(a int) {
+				if a == quiet {
+					c.Add(1)
+				}
+			}
+		}
+		e.Hook(count(&c1))
+		var h2 *event.Hook[func(int)]
+		if mode == 0 {
+			h2 = e.Hook(count(&c2))
+		} else {
+			h2 = e.Hook(count(&c2), event.WithMaxTriggerCount(1))
+			e.Trigger(0) // uses the limit up: the next Trigger that reaches it unhooks it
+		}
+		nNew := 1 + round%2
+		var wg sync.WaitGroup
+		var pn panics
+		var start atomic.Bool
+		var ready atomic.Int32
+		delay := func(n int) {
+			for i := 0; i < n; i++ {
+				_ = ready.Load()
+			}
+		}
+		for i := 0; i < u; i++ {
+			i := i
+			pn.goSafe(&wg, func() {
+				ready.Add(1)
+				spinUntil(&start)
+				delay((round * (i + 1)) % 7 * i)
+				if mode == 0 {
+					h2.Unhook()
+				} else {
+					e.Trigger(i + 1)
+				}
+			})
+		}
+		pn.goSafe(&wg, func() {
+			ready.Add(1)
+			spinUntil(&start)
+			delay(round % 61)
+			for j := 0; j < nNew; j++ {
+				e.Hook(count(&newCounts[j]))
+			}
+		})
+		for spins := 0; int(ready.Load()) < u+1 && spins < 1<<22; spins++ {
+			runtime.Gosched()
+		}
+		start.Store(true)
+		if !waitTimeout(&wg) {
+			w.fail("hang", "Unhook/Hook stress goroutines did not finish", map[string]string{"oracle": "hang", "api": "event.Unhook", "mode": "stress"})
+
+			break
+		}
+		pn.report(w, "uu")
+		e.Trigger(quiet)
+		roundBad := false
+		if c1.Load() != 1 {
+			roundBad = true
+			if c1.Load() == 0 {
+				lost++
+			} else {
+				extra++
+			}
+		}
+		if c2.Load() != 0 {
+			roundBad, extra = true, extra+1
+		}
+		for j := 0; j < nNew; j++ {
+			if n := newCounts[j].Load(); n != 1 {
+				roundBad = true
+				if n == 0 {
+					lost++
+				} else {
+					extra++
+				}
+			}
+		}
+		if roundBad {
+			bad++
+			if first == "" {
+				first = fmt.Sprintf("round %d: first hook %d, removed hook %d, new hooks %d/%d of %d", round, c1.Load(), c2.Load(), newCounts[0].Load(), newCounts[1].Load(), nNew)
+			}
+		}
+	}
+	if bad != 0 {
+		w.fail("trigger-exactly-once", fmt.Sprintf("the last-attached hook removed by %d goroutines at once (mode %d) while new hooks are attached, %d rounds: in %d rounds the quiescent Trigger did not invoke every attached hook exactly once (%d hooks never reached, %d invoked wrongly; %s)", u, mode, rounds, bad, lost, extra, first),
+			map[string]string{"oracle": "concurrent-unhook", "api": "event.Hook.Unhook", "mode": "stress"})
+	}
+	w.res.nontrivial = true
+
+	return fmt.Sprintf("uu %d %d %d => %d %d %d", mode, u, rounds, bad, lost, extra), "accept"
+}
+
+// execVD: listener creation against the last deregistration, no Notify at all: per value one goroutine loops
+// create+Deregister, another loops create+Wait (already cancelled context, the Wait deregisters too); every Wait
+// must fail with the context error.
+//
+//	vd <values> <K> => <waits> <ok> <other>      ok = Waits that returned success
+func (w *world) execVD(f []string) (string, string) {
+	in := cutArrow(f)
+	p, ok := atoiAll(in)
+	if !ok || len(p) != 2 || p[0] < 1 || p[0] > 8 || p[1] < 1 || p[1] > 10000000 {
+		return "vd " + strings.Join(f, " "), "bad-op"
+	}
+	values, k := p[0], p[1]
+	n := valuenotifier.New[int]()
+	ctx, cancel := context.WithCancel(context.Background())
+	cancel()
+	var okCount, other atomic.Int64
+	var wg sync.WaitGroup
+	var pn panics
+	defer pn.report(w, "vd")
+	var start atomic.Bool
+	for v := 0; v < values; v++ {
+		v := v
+		pn.goSafe(&wg, func() {
+			spinUntil(&start)
+			for i := 0; i < k; i++ {
+				n.Listener(v).Deregister()
+			}
+		})
+		pn.goSafe(&wg, func() {
+			spinUntil(&start)
+			for i := 0; i < k; i++ {
+				switch waitResult(n.Listener(v).Wait(ctx)) {
+				case "canceled":
+				case "ok":
+					okCount.Add(1)
+				default:
+					other.Add(1)
+				}
+			}
+		})
+	}
+	start.Store(true)
+	if !waitTimeout(&wg) {
+		w.fail("hang", "listener creation / deregistration stress did not finish", map[string]string{"oracle": "hang", "api": "valuenotifier.Listener", "mode": "stress"})
+	}
+	if okCount.Load() != 0 || other.Load() != 0 {
+		w.fail("notifier-wait", fmt.Sprintf("%d values, per value %d create+Deregister against %d create+Wait(cancelled), Notify never called: %d Waits returned success, %d something else than context.Canceled", values, k, k, okCount.Load(), other.Load()),
+			map[string]string{"oracle": "wait-ok-without-notify", "api": "valuenotifier.Listener.Wait", "mode": "create-vs-last-deregister"})
+	}
+	w.res.nontrivial = true
+
+	return fmt.Sprintf("vd %d %d => %d %d %d", values, k, values*k, okCount.Load(), other.Load()), "accept"
 }
